@@ -33,3 +33,9 @@ Definition cc_init : ConnClose.cst nat := ConnClose.cinit nat.
 Definition cc_step (s : ConnClose.cst nat) (l : ConnClose.clabel nat) : option (ConnClose.cst nat) :=
   ConnClose.cstep nat 1024 true s l.
 Definition cc_closed (s : ConnClose.cst nat) : bool := ConnClose.wr_closed nat s.
+
+(* the same queue model with a generous scheduling latency, for lock-step replay of traces recorded under the
+   controllable runtime (a timer of another thread may fire before a timed-out thread has resumed) *)
+Definition mq_EPS_replay : nat := 5000.
+Definition mq_step_replay (fixed : bool) (s : MsgQueue.st nat) (l : MsgQueue.label nat) : option (MsgQueue.st nat) :=
+  MsgQueue.step nat mq_MS mq_EPS_replay fixed s l.
